@@ -35,20 +35,25 @@ def main():
         out["tests"] = tail
         out["tests_ok"] = bool(re.search(r"140 passed, 2 errors", tail))
         demo = os.path.join(d, "demo.py")
-        r1 = sh(["/venv/bin/python", "-B", demo], env=dict(os.environ, REPO=wt), cwd=tempfile.gettempdir())
-        r0 = sh(["/venv/bin/python", "-B", demo], env=dict(os.environ, REPO="/repo"), cwd=tempfile.gettempdir())
-        out["demo_with_change"] = r1.returncode
-        out["demo_without_change"] = r0.returncode
-        out["demo_ok"] = r1.returncode == 1 and r0.returncode == 0
-        if not out["demo_ok"]:
+        if not os.path.exists(demo):
+            # a behaviour-preserving change (tools/refactor round): nothing to demonstrate, the checks must stay quiet
+            out["demo_ok"] = None
+            demo = None
+        r1 = demo and sh(["/venv/bin/python", "-B", demo], env=dict(os.environ, REPO=wt), cwd=tempfile.gettempdir())
+        r0 = demo and sh(["/venv/bin/python", "-B", demo], env=dict(os.environ, REPO="/repo"), cwd=tempfile.gettempdir())
+        if demo:
+            out["demo_with_change"] = r1.returncode
+            out["demo_without_change"] = r0.returncode
+            out["demo_ok"] = r1.returncode == 1 and r0.returncode == 0
+        if demo and not out["demo_ok"]:
             out["demo_output"] = (r1.stdout + r1.stderr)[-600:] + " || " + (r0.stdout + r0.stderr)[-600:]
         for p in props:
             r = sh([os.path.join(HERE, "vcheck.py"), p, "--tier", tier], env=dict(os.environ, VERIF_REPO=wt))
             clauses = [l.split(" ", 2)[1].rstrip(":") for l in r.stdout.splitlines() if l.startswith("violation ")]
             out["checks"][p] = {"exit": r.returncode, "detected": r.returncode == 1 and f"VIOLATION property={p}" in r.stdout,
                                 "clauses": clauses[:4]}
-            if r.returncode == 2:
-                out["checks"][p]["tail"] = (r.stdout + r.stderr)[-800:]
+            if r.returncode != 0 and (r.returncode == 2 or not demo):
+                out["checks"][p]["tail"] = (r.stdout + r.stderr)[-1500:]
         print(json.dumps(out, indent=1))
         return 0
     finally:
